@@ -230,6 +230,27 @@ impl Probe {
             _ => last + (self.rng.below(span as u64) as Micros),
         }
     }
+    /// `Interface::poll_delay` against `Interface::poll_at` asked at the same instant
+    pub fn judge_delay(&mut self, now: Micros, at: Option<Micros>, delay: Option<Micros>, want: Option<Micros>) {
+        self.out.evals += 1;
+        self.out.count("poll_delay_compared_with_poll_at", 1);
+        if delay != want && !self.reported {
+            self.reported = true;
+            self.out.violate(
+                Violation::new(
+                    format!("D:poll_delay-disagrees-with-poll_at:{}", match (at, delay) {
+                        (None, Some(_)) => "delay-without-deadline",
+                        (Some(_), None) => "deadline-without-delay",
+                        (Some(t), Some(_)) if t <= now => "deadline-due",
+                        _ => "deadline-ahead",
+                    }),
+                    format!("driver {}: at t={}us Interface::poll_at answers {:?} but Interface::poll_delay answers {:?}us (expected {:?}us: the distance to that instant, zero if it is due)", self.driver, now, at, delay, want),
+                )
+                .with(Json::obj().set("t", Json::Int(now))),
+            );
+        }
+    }
+
     pub fn mark_probed(&mut self) {
         self.probed_interval = true;
     }
